@@ -294,6 +294,18 @@ impl Sub for FuzzSub {
             let target = self.target.to_string();
             handles.push(std::thread::spawn(move || run_fuzz_binary(&target, &args)));
         }
+        // A campaign that cannot be run or ends without a verdict (tooling trouble,
+        // libFuzzer timeout/OOM) is inconclusive in the thorough tier; the short
+        // campaign of the quick tier is then only noted - the quick tier's verdict
+        // rests on the replayed inputs and the property-based sub-checks.
+        let quick = ctx.tier != Tier::Thorough;
+        let mut trouble = |rep: &mut SubReport, m: String| {
+            if quick {
+                rep.notes.push(format!("quick-tier campaign skipped: {m}"));
+            } else {
+                rep.inconclusive.push(m);
+            }
+        };
         for h in handles {
             match h.join() {
                 Ok(Ok((code, text))) => {
@@ -310,17 +322,17 @@ impl Sub for FuzzSub {
                         match artifact.and_then(|a| std::fs::read(a).ok()) {
                             Some(raw) => {
                                 if text.contains("ERROR: libFuzzer: timeout") || text.contains("out-of-memory") {
-                                    rep.inconclusive.push(format!("{}: libFuzzer timeout/OOM on a {}-byte input", self.target, raw.len()));
+                                    trouble(&mut rep, format!("{}: libFuzzer timeout/OOM on a {}-byte input", self.target, raw.len()));
                                 } else {
                                     rep.violations.push(Violation { sub: self.name.into(), profile: "fuzz-asan".into(), message: format!("{}: {why}", self.target), case: serde_json::to_value(FuzzCase { target: self.target.into(), input: Hex(raw), from_campaign: true }).unwrap() });
                                 }
                             }
-                            None => rep.inconclusive.push(format!("{}: cargo fuzz ended with {code} without an artifact: {}", self.target, text.lines().rev().find(|l| !l.trim().is_empty()).unwrap_or(""))),
+                            None => trouble(&mut rep, format!("{}: cargo fuzz ended with {code} without an artifact: {}", self.target, text.lines().rev().find(|l| !l.trim().is_empty()).unwrap_or(""))),
                         }
                     }
                 }
-                Ok(Err(e)) => rep.inconclusive.push(e),
-                Err(_) => rep.inconclusive.push("fuzz runner thread panicked".into()),
+                Ok(Err(e)) => trouble(&mut rep, e),
+                Err(_) => trouble(&mut rep, "fuzz runner thread panicked".into()),
             }
         }
         let _ = std::fs::remove_dir_all(&work);
